@@ -207,6 +207,10 @@ def h15_bounds(b0: bool, b1: bool, b2: bool, b3: bool, b4: bool, b5: bool) -> bo
         if verdict is None:
             verdict = acc
         elif acc != verdict:
+            # with several upper bounds the union built from them (known finding C15-K2) also makes the verdict depend
+            # on when the lower bound is compared with it
+            if excluded(feat_several_uppers=(n_upper >= 2), b0=b0, b1=b1, b2=b2, b3=b3, b4=b4, b5=b5):
+                return skip()
             return fin(False)
         if acc:
             S = tv_map[CC.T]
